@@ -55,6 +55,7 @@ AuxInit == [rem      |-> [d \in Devs |-> 0],          \* C06: operational time s
             cost     |-> [d \in Devs |-> 0],          \* C16: summed value of supplied parts at supply
             rev      |-> [d \in Devs |-> 0],          \* C16: summed value of received parts at receipt
             idle     |-> [d \in Devs |-> 0],          \* C08: since when the device has been idle (empty and operational)
+            join     |-> <<>>,                        \* C17: routing history of each part when it joined its batch
             inSeq    |-> [d \in Devs |-> <<>>],       \* C17: leaf parts in arrival order
             outSeq   |-> [d \in Devs |-> <<>>],       \* C17: leaf parts in leaving order
             disp     |-> <<>>,                        \* C15: dispatched events <<time, device, kind, priority>>
@@ -62,6 +63,10 @@ AuxInit == [rem      |-> [d \in Devs |-> 0],          \* C06: operational time s
             steps    |-> <<0, 0>>]                    \* C03: <<instant, events dispatched in it>>
 
 Supplied(pre, post, s) == post.dev[s].supplied - pre.dev[s].supplied
+(* leaf parts that joined an output batch of batcher d in this step *)
+InBatchAt(S, d) == Range(S.dev[d].inprog) \cup (IF S.dev[d].out # 0 /\ S.part[S.dev[d].out].batch
+                                                  THEN Range(S.part[S.dev[d].out].leaves) ELSE {})
+JoinedAt(pre, post, d) == IF cfg.devs[d].bsize > 0 THEN InBatchAt(post, d) \ InBatchAt(pre, d) ELSE {}
 FreeDev(S, d) == S.dev[d].inp = 0 /\ S.dev[d].out = 0 /\ S.dev[d].buf = <<>>
 (* leaves of the items device d received in this step, in arrival order (as they were before the step) *)
 ArrivedLeaves(pre, ev, d) ==
@@ -108,6 +113,9 @@ AuxNext(aux, pre, ev, post) ==
                  IF d \in HoldDevs /\ ( (~FreeDev(pre, d) /\ FreeDev(post, d))
                                          \/ (d \in Procs /\ pre.dev[d].down /\ ~post.dev[d].down) )
                  THEN post.now ELSE aux.idle[d]],
+     join |-> [p \in DOMAIN post.part |->
+                 IF \E d \in Devs : Kind(d) = "batcher" /\ p \in JoinedAt(pre, post, d) THEN post.part[p].hist
+                 ELSE IF p \in DOMAIN aux.join THEN aux.join[p] ELSE <<>>],
      inSeq |-> [d \in Devs |-> IF Kind(d) = "batcher" THEN aux.inSeq[d] \o ArrivedLeaves(pre, ev, d) ELSE <<>>],
      outSeq |-> [d \in Devs |-> IF Kind(d) = "batcher" /\ pre.dev[d].out # 0 /\ post.dev[d].out # pre.dev[d].out
                                 THEN aux.outSeq[d] \o LeavesOf(pre, pre.dev[d].out) ELSE aux.outSeq[d]],
@@ -436,8 +444,10 @@ C17(pre, ev, post, aux) ==
                 THEN post.part[post.dev[b].out].batch /\ Len(post.part[post.dev[b].out].leaves) = cfg.devs[b].bsize
                 ELSE ~post.part[post.dev[b].out].batch)
     \cup C("C17.BatchHistoryAppliedToAllParts",
+           \* every part of a batch has the history it had when it joined, followed by the batch's history since
            \A b \in DOMAIN post.part : post.part[b].batch =>
-                \A i \in DOMAIN post.part[b].leaves : IsSuffix(post.part[b].hist, post.part[post.part[b].leaves[i]].hist))
+                \A i \in DOMAIN post.part[b].leaves :
+                    LET x == post.part[b].leaves[i] IN post.part[x].hist = a1.join[x] \o post.part[b].hist)
     \cup C("C17.InProgressBelowSize", \A b \in Batchers : cfg.devs[b].bsize > 0 => Len(post.dev[b].inprog) < cfg.devs[b].bsize)
     \cup C("C17.AcceptsOnlyWhenEmpty",
            \A b \in Batchers : Occ(ev, "recv", b) # <<>> => (pre.dev[b].inp = 0 /\ pre.dev[b].out = 0))
